@@ -1121,6 +1121,13 @@ func (vm *VM) xOpCallCompiled(cfunc *CompiledFunction, numArgs, flags int) error
 					vm.stack[basePointer+numParams-1:basePointer+numArgs-1]...)
 				arr = append(arr, vm.stack[basePointer+numArgs-1].(Array)...)
 				vm.stack[basePointer+numParams-1] = arr
+			} else {
+				// f := func(a, ...b) {} // a == 1  b == [2, 3]
+				// f(1, ...[2, 3])
+				// the variadic parameter is a new array as in every other case,
+				// not the array of the caller
+				arr := vm.stack[basePointer+numArgs-1].(Array)
+				vm.stack[basePointer+numParams-1] = append(Array{}, arr...)
 			}
 		} else {
 			if arrSize+numArgs-1 != numParams {
